@@ -113,29 +113,31 @@ impl ArgValidation for Expressions {
     }
 
     fn require_string_ref(&self, index: usize) -> Result<(), LintErrorPos> {
-        match self.expr(index) {
-            Expression::Variable(_, expression_type)
-            | Expression::ArrayElement(_, _, expression_type)
-            | Expression::Property(_, _, expression_type) => {
-                if expression_type.can_cast_to(&TypeQualifier::DollarString) {
-                    Ok(())
-                } else {
-                    Err(LintError::ArgumentTypeMismatch.at(&self[index]))
-                }
+        let expr = self.expr(index);
+        if expr.is_by_ref() {
+            // the type of the expression, not the type of the elements:
+            // `A$()` is an entire array, not a string
+            if expr.can_cast_to(&TypeQualifier::DollarString) {
+                Ok(())
+            } else {
+                Err(LintError::ArgumentTypeMismatch.at(&self[index]))
             }
-            _ => Err(LintError::VariableRequired.at(&self[index])),
+        } else {
+            Err(LintError::VariableRequired.at(&self[index]))
         }
     }
 
     fn require_variable_of_built_in_type(&self, index: usize) -> Result<(), LintErrorPos> {
-        match self.expr(index) {
-            Expression::Variable(_, expression_type)
-            | Expression::ArrayElement(_, _, expression_type)
-            | Expression::Property(_, _, expression_type) => match expression_type {
+        let expr = self.expr(index);
+        if expr.is_by_ref() {
+            // the type of the expression, not the type of the elements:
+            // `A()` is an entire array
+            match expr.expression_type() {
                 ExpressionType::BuiltIn(_) | ExpressionType::FixedLengthString(_) => Ok(()),
                 _ => Err(LintError::ArgumentTypeMismatch.at(&self[index])),
-            },
-            _ => Err(LintError::VariableRequired.at(&self[index])),
+            }
+        } else {
+            Err(LintError::VariableRequired.at(&self[index]))
         }
     }
 
